@@ -410,7 +410,7 @@ func (r *Run) parent() int {
 		if c.race {
 			bin = exe + ".race"
 			env = append(env, fmt.Sprintf("VERIF_SHARD=%d/%d", i-shards, raceShards), "VERIF_RACE=1",
-				"GORACE=halt_on_error=0 history_size=5 log_path="+filepath.Join(work, fmt.Sprintf("race.%d", i)))
+				"GORACE=halt_on_error=0 exitcode=0 history_size=5 log_path="+filepath.Join(work, fmt.Sprintf("race.%d", i)))
 		} else {
 			env = append(env, fmt.Sprintf("VERIF_SHARD=%d/%d", i, shards))
 		}
